@@ -40,6 +40,12 @@ def legacy_leading_zero_number(case, signature, detail):
     if not signature.startswith("string:NUMBER"):
         return False
     cp = detail.get("cpython")
+    if cp and cp[0] == "NUMBER":
+        try:  # '09.5', '09j', '00' are valid literals and must tokenize like CPython: not part of D24
+            ast.literal_eval(cp[1])
+            return False
+        except (SyntaxError, ValueError):
+            pass
     return bool(cp) and cp[0] == "NUMBER" and re.fullmatch(r"0[0-9_]*[0-9][0-9_]*[jJ]?|0[0-9_]+\.?[0-9_]*(?:[eE][-+]?[0-9_]+)?[jJ]?", cp[1]) is not None and not re.fullmatch(r"0(?:_?0)*", cp[1])
 
 
